@@ -213,11 +213,18 @@ def gMatrix {C} (ops : Ops C) : List (GTerm C) → Except MErr (List (GItem C))
 inductive FSrc
   | num (name : String) (vals : Col)
   | cat (name : String) (vals : List (Option String)) (levels : List String) (reduced : Bool)
+  /-- the constant of a scoped term WITHOUT factors (the intercept): `_build_model_matrix` does not go
+  through `_get_columns_for_term` for it but sets `"Intercept" = scale * _encode_constant(1, …)`
+  (`value * numpy.ones(n)`, resp. `csc_matrix(numpy.array([value] * n).reshape((n, 1)))`); a term
+  holding this one source gives exactly that column, since the column path multiplies a lone factor
+  by the scale and nothing else -/
+  | one (nrows : Nat)
 deriving Repr
 
 def FSrc.nrows : FSrc → Nat
   | .num _ vals => vals.length
   | .cat _ vals _ _ => vals.length
+  | .one n => n
 
 def catName (name lv : String) (reduced : Bool) : String := Encode.fmtName name lv reduced
 
@@ -230,6 +237,7 @@ def FSrc.encodeS : FSrc → List (GItem SCol)
     let r := encodeSparse vals (some levels) none false
     let items := (r.1.zip r.2).map (fun p => (catName name p.1 reduced, p.2))
     if reduced then items.drop 1 else items
+  | .one n => [("Intercept", SCol.ofDense (List.replicate n 1))]
 
 /-- the same with `output="numpy"` -/
 def FSrc.encodeD : FSrc → List (GItem Col)
@@ -238,6 +246,7 @@ def FSrc.encodeD : FSrc → List (GItem Col)
     let r := encodeDense vals (some levels) none false
     let items := (r.1.zip r.2).map (fun p => (catName name p.1 reduced, p.2))
     if reduced then items.drop 1 else items
+  | .one n => [("Intercept", List.replicate n 1)]
 
 structure STerm where
   scale : Rat
